@@ -260,6 +260,8 @@ func runImm(s ImmScript, v *vt.V) {
 	present := map[string]string{} // wrapper mode: everything ever retrievable -> sha of its bytes
 	conflicts, protectedDeletes := 0, 0
 	checkInvariants := func(i int, op ops.Op) bool {
+		var prevK tagKey
+		havePrev := false
 		for k, want := range ledger {
 			d, err := reg.ResolveTag(ctx, u.Repos[k.repo], u.Tags[k.tag])
 			if err != nil {
@@ -275,7 +277,22 @@ func runImm(s ImmScript, v *vt.V) {
 				v.Failf("tag-lost", "after op %d %+v: GetTag %s:%s fails: %v (it resolved to %s before)", i, op, u.Repos[k.repo], u.Tags[k.tag], err, want.digest)
 				return false
 			}
+			// (readers are independent: another tag is read, and its reader closed twice - an explicit Close
+			// and a deferred one - while this reader is open)
+			if havePrev {
+				if r2, err := reg.GetTag(ctx, u.Repos[prevK.repo], u.Tags[prevK.tag]); err == nil {
+					data2, _ := io.ReadAll(r2)
+					r2.Close()
+					r2.Close()
+					if !bytes.Equal(data2, ledger[prevK].data) {
+						v.Failf("tag-bytes-changed", "after op %d %+v: tag %s:%s, read while a reader of %s:%s was open, yields other bytes", i, op, u.Repos[prevK.repo], u.Tags[prevK.tag], u.Repos[k.repo], u.Tags[k.tag])
+						return false
+					}
+				}
+			}
+			prevK, havePrev = k, true
 			data, _ := io.ReadAll(r)
+			r.Close()
 			r.Close()
 			if !bytes.Equal(data, want.data) {
 				v.Failf("tag-bytes-changed", "after op %d %+v: tag %s:%s now yields other bytes", i, op, u.Repos[k.repo], u.Tags[k.tag])
